@@ -6,11 +6,14 @@
   That each memoised Python function is itself pure is the business of the other properties' models and is
   sampled on the real objects by the `hist` operations of harness/props/c10.py.
 
-  Two clauses of the property FAIL on the pinned code; for each the file has the theorem for the repaired
-  device and a decided witness that the device as coded deviates:
-    F-C10a  `CDSInterval.extract_sequence()` returns `str` (not `Sequence`) once the codon locations were listed
-    F-C10b  `_merge_qualifiers` copies the dict but not its sets: an export adds the parent's values to the
-            interval's own qualifier sets
+  Two clauses of the property FAILED on the originally pinned code and were repaired in /repo; the main theorems
+  (T4, T5) are about the code as it is, the old behaviour is kept as decided before-repair regression facts:
+    F-C10a  (a04ad26, 588ca9c) `CDSInterval.extract_sequence()` returned `str` once the codon locations were listed
+    F-C10b  (b1a89c3) `_merge_qualifiers` copied the dict but not its sets: an export added the parent's values to
+            the interval's own qualifier sets
+  Still open (finding F-C10c): the untyped `lru_cache` keys make `'chromosome'` and `SequenceType.CHROMOSOME` one key.
+  The LRU theorems below are stated for an `f` that is a function of the KEY (as `DecidableEq` sees it); F-C10c is
+  exactly a case where the cached Python function is not: it distinguishes two arguments that `==`/`hash` identify.
 -/
 import BioCantor.Proofs.CacheLru
 import BioCantor.Proofs.CacheState
@@ -91,85 +94,110 @@ theorem parent_strand_reads (strandArg : Option Strand) (location : Option (Stra
       = List.replicate n (ParentS.compute ⟨strandArg, location, none⟩) :=
   parentS_reads n (Or.inl rfl)
 
-/-! ## T4 — the two `extract_sequence` paths -/
+/-! ## T4 — the two `extract_sequence` paths (the code as it is: a04ad26 + 588ca9c) -/
 
-/-- T4 (value part; holds for the code as it is): if the two code paths compute the same letters — which is
-    C05's theorem about the codon walk; here a hypothesis — then EVERY `extract_sequence()` answer of EVERY
-    history carries the letters of the fresh answer, whichever path was taken and whatever was memoised.
+/-- the model of the CURRENT code: the cached-codon path is guarded by "at least one codon" and returns a `Sequence` -/
+def currentCds {γ : Type} (pathA pathB : γ → List Char) : CdsCfg γ := ⟨pathA, pathB, true⟩
 
-    Full statement (value AND type), false on the pinned code (see `extract_type_depends_on_history`):
-      `(cdsRun cfg (CdsState.fresh c) hist).2 = hist.map (freshAns (cfg.pathA c))`
-    proved below for the repaired device as `extract_history_independent_repaired`. -/
-theorem extract_letters_history_independent_partial {γ : Type} (cfg : CdsCfg γ) (c : γ)
+/-- T4 (value AND type): if the two code paths compute the same letters — which is C05's theorem about the codon
+    walk; here a hypothesis — then every step of EVERY history of
+    {list codon locations, count codons, extract_sequence, has_valid_stop} on the current code answers exactly what
+    a freshly built object answers to that single question: `extract_sequence()` is the `Sequence` of the in-frame
+    letters whichever path was taken and whatever was memoised, `has_valid_stop` is its boolean, never an error. -/
+theorem extract_history_independent {γ : Type} (pathA pathB : γ → List Char) (c : γ)
+    (heq : pathA c = pathB c) (hist : List CdsOp) :
+    (cdsRun (currentCds pathA pathB) (CdsState.fresh c) hist).2 = hist.map (freshAns (pathA c)) :=
+  cdsRun_patched (cfg := currentCds pathA pathB) heq rfl hist
+    ⟨cdsInv_fresh _ c, by intro v h; simp [CdsState.fresh] at h⟩
+
+/-- … hence the answers meet the decidable spec the `cdshist` operations are checked with -/
+theorem extract_meets_spec {γ : Type} (pathA pathB : γ → List Char) (c : γ)
+    (heq : pathA c = pathB c) (hist : List CdsOp) :
+    okCdsHist (pathA c) hist (cdsRun (currentCds pathA pathB) (CdsState.fresh c) hist).2 = true := by
+  simp [okCdsHist, extract_history_independent pathA pathB c heq hist]
+
+/-- the same for any configuration flagged `repaired` (general form used by the two theorems above) -/
+theorem extract_history_independent_repaired {γ : Type} (cfg : CdsCfg γ) (c : γ)
+    (heq : cfg.pathA c = cfg.pathB c) (hw : cfg.repaired = true) (hist : List CdsOp) :
+    (cdsRun cfg (CdsState.fresh c) hist).2 = hist.map (freshAns (cfg.pathA c)) :=
+  cdsRun_patched heq hw hist ⟨cdsInv_fresh cfg c, by intro v h; simp [CdsState.fresh] at h⟩
+
+/-- both paths give the letters `ATGTAA` -/
+def currentCfg : CdsCfg Unit := currentCds (fun _ => ['A', 'T', 'G', 'T', 'A', 'A']) (fun _ => ['A', 'T', 'G', 'T', 'A', 'A'])
+/-- the code BEFORE the repair: cached-codon path unguarded, returns the joined `str` -/
+def beforeRepairCfg : CdsCfg Unit := { currentCfg with repaired := false }
+
+/-- the hypothesis of T4 is satisfiable, and the history below really takes the cached-codon path -/
+example : currentCfg.pathA () = currentCfg.pathB () := rfl
+example : (cdsRun currentCfg (CdsState.fresh ()) [.listCodons, .extract, .validStop, .extract]).2
+    = [.count 2, .seqObj ['A', 'T', 'G', 'T', 'A', 'A'], .bool true, .seqObj ['A', 'T', 'G', 'T', 'A', 'A']] := by decide
+/-- a codon-less CDS (2 letters): the guard sends the current code down the ordinary path -/
+example : useCachedPath (currentCds (fun _ : Unit => ['A', 'T']) (fun _ => ['A', 'T']))
+    (listCodons (currentCds (fun _ : Unit => ['A', 'T']) (fun _ => ['A', 'T'])) (CdsState.fresh ())).1 = false := by decide
+
+/-! ### before-repair regression facts (defect F-C10a, repaired by a04ad26 + 588ca9c) -/
+
+/-- value part, which also held before the repair: the LETTERS of every `extract_sequence()` answer are history
+    independent for either revision of the code -/
+theorem extract_letters_history_independent_any_revision {γ : Type} (cfg : CdsCfg γ) (c : γ)
     (heq : cfg.pathA c = cfg.pathB c) (hist : List CdsOp) :
     ∀ a ∈ extractAnswers hist (cdsRun cfg (CdsState.fresh c) hist).2, letters a = some (cfg.pathA c) :=
   cdsRun_letters heq hist (cdsInv_fresh cfg c)
 
-/-- T4 (value and type) for the repaired device (`wrapB = true`: path B returns a `Sequence`): every step of
-    every history answers what a fresh object answers. -/
-theorem extract_history_independent_repaired {γ : Type} (cfg : CdsCfg γ) (c : γ)
-    (heq : cfg.pathA c = cfg.pathB c) (hw : cfg.wrapB = true) (hist : List CdsOp) :
-    (cdsRun cfg (CdsState.fresh c) hist).2 = hist.map (freshAns (cfg.pathA c)) :=
-  cdsRun_patched heq hw hist ⟨cdsInv_fresh cfg c, by intro v h; simp [CdsState.fresh] at h⟩
-
-/-- the pinned code: both paths give the letters `ATGTAA`, path B does not wrap -/
-def pinnedCfg : CdsCfg Unit := ⟨fun _ => ['A', 'T', 'G', 'T', 'A', 'A'], fun _ => ['A', 'T', 'G', 'T', 'A', 'A'], false⟩
-def repairedCfg : CdsCfg Unit := { pinnedCfg with wrapB := true }
-
-/-- the hypotheses of T4 are satisfiable -/
-example : pinnedCfg.pathA () = pinnedCfg.pathB () := rfl
-example : repairedCfg.pathA () = repairedCfg.pathB () ∧ repairedCfg.wrapB = true := ⟨rfl, rfl⟩
-
-/-- F-C10a, witness on the model of the code as it is: the TYPE of `extract_sequence()` depends on whether
-    `chunk_relative_codon_locations` was listed before … -/
-theorem extract_type_depends_on_history :
-    (cdsRun pinnedCfg (CdsState.fresh ()) [.extract]).2 = [.seqObj ['A', 'T', 'G', 'T', 'A', 'A']] ∧
-    (cdsRun pinnedCfg (CdsState.fresh ()) [.listCodons, .extract]).2
+/-- F-C10a as it was: the TYPE of `extract_sequence()` depended on whether the codon locations were listed before -/
+theorem before_repair_extract_type_depended_on_history :
+    (cdsRun beforeRepairCfg (CdsState.fresh ()) [.extract]).2 = [.seqObj ['A', 'T', 'G', 'T', 'A', 'A']] ∧
+    (cdsRun beforeRepairCfg (CdsState.fresh ()) [.listCodons, .extract]).2
       = [.count 2, .str ['A', 'T', 'G', 'T', 'A', 'A']] := by
   decide
 
-/-- … and `has_valid_stop` then fails with an internal error, although a fresh object answers `True`;
-    asking `extract_sequence()` FIRST hides the problem (the `Sequence` is memoised). -/
-theorem valid_stop_depends_on_history :
-    (cdsRun pinnedCfg (CdsState.fresh ()) [.validStop]).2 = [.bool true] ∧
-    (cdsRun pinnedCfg (CdsState.fresh ()) [.numCodons, .validStop]).2 = [.count 2, .internalError] ∧
-    (cdsRun pinnedCfg (CdsState.fresh ()) [.extract, .numCodons, .validStop]).2
+/-- … and `has_valid_stop` then failed with an internal error although a fresh object answers `True` -/
+theorem before_repair_valid_stop_depended_on_history :
+    (cdsRun beforeRepairCfg (CdsState.fresh ()) [.validStop]).2 = [.bool true] ∧
+    (cdsRun beforeRepairCfg (CdsState.fresh ()) [.numCodons, .validStop]).2 = [.count 2, .internalError] ∧
+    (cdsRun beforeRepairCfg (CdsState.fresh ()) [.extract, .numCodons, .validStop]).2
       = [.seqObj ['A', 'T', 'G', 'T', 'A', 'A'], .count 2, .bool true] := by
   decide
 
-/-! ## T5 — `_merge_qualifiers` -/
+/-! ## T5 — `_merge_qualifiers` (the code as it is: b1a89c3, `{key: set(vals) for …}`) -/
 
-/-- T5: with a deep copy (`{k: set(v) for k, v in self.qualifiers.items()}`) the merge leaves EVERY cell that
-    existed before the call untouched — in particular all sets of the interval's own qualifiers and of the
-    parent's. (`h` = the heap before the call, `own` any dict, `other` any qualifiers to merge in.) -/
-theorem merge_deep_preserves_operand (h : Heap) (own : Dict) (other : List (Nat × List Nat)) (r : Ref)
+/-- T5: the merge as coded (`mergeDeep`) leaves EVERY cell that existed before the call untouched — in particular all
+    sets of the interval's own qualifiers and of the parent's. (`h` = the heap before the call, `own` any dict,
+    `other` any qualifiers to merge in.) -/
+theorem merge_leaves_operand_untouched (h : Heap) (own : Dict) (other : List (Nat × List Nat)) (r : Ref)
     (hr : r < h.length) : (mergeDeep h own other).1[r]? = h[r]? := by
   have hd := deepCopy_frame own h
   unfold mergeDeep
   rw [mergeInto_frame h.length other _ _ hd.2.1 hd.2.2 r hr]
   exact hd.1 r hr
 
-/-- hence the interval's own qualifiers read the same before and after -/
-theorem merge_deep_own_unchanged (h : Heap) (own : Dict) (other : List (Nat × List Nat))
+/-- hence the interval's own qualifiers read the same before and after an export -/
+theorem merge_own_qualifiers_unchanged (h : Heap) (own : Dict) (other : List (Nat × List Nat))
     (hown : ∀ kr ∈ own, kr.2 < h.length) :
     deref (mergeDeep h own other).1 own = deref h own := by
   unfold deref
   apply List.map_congr_left
   intro kr hkr
-  simp only [cellAt, merge_deep_preserves_operand h own other kr.2 (hown kr hkr)]
+  simp only [cellAt, merge_leaves_operand_untouched h own other kr.2 (hown kr hkr)]
 
-/-- hypothesis of `merge_deep_own_unchanged` is what `alloc` establishes -/
+/-- hypothesis of `merge_own_qualifiers_unchanged` is what `alloc` establishes -/
 example : ∀ kr ∈ (alloc [] [(7, [1]), (8, [2, 3])]).2, kr.2 < (alloc [] [(7, [1]), (8, [2, 3])]).1.length := by
   decide
 
-/-- F-C10b, witness on the model of the code as it is (`merged = self.qualifiers.copy()`): own qualifiers
-    `{7: {1}}`, parent qualifiers `{7: {2}}` — after the merge the interval's OWN set is `{1, 2}`. -/
-theorem merge_shallow_aliases :
+/-- … and the merge still merges: own `{7: {1}}`, parent `{7: {2}, 9: {5}}` gives `{7: {1, 2}, 9: {5}}`, own unchanged -/
+example :
+    let h0 := (alloc [] [(7, [1])])
+    let r := mergeDeep h0.1 h0.2 [(7, [2]), (9, [5])]
+    deref r.1 r.2 = [(7, [1, 2]), (9, [5])] ∧ deref r.1 h0.2 = [(7, [1])] := by
+  decide
+
+/-- before-repair regression fact (defect F-C10b, repaired by b1a89c3): with `merged = self.qualifiers.copy()` own
+    qualifiers `{7: {1}}` merged with parent qualifiers `{7: {2}}` left the interval's OWN set as `{1, 2}` -/
+theorem before_repair_merge_aliased :
     let h0 := (alloc [] [(7, [1])])
     deref h0.1 h0.2 = [(7, [1])] ∧
     deref (mergeShallow h0.1 h0.2 [(7, [2])]).1 h0.2 = [(7, [1, 2])] ∧
-    deref (mergeDeep h0.1 h0.2 [(7, [2])]).1 h0.2 = [(7, [1])] ∧
-    deref (mergeDeep h0.1 h0.2 [(7, [2])]).1 (mergeDeep h0.1 h0.2 [(7, [2])]).2 = [(7, [1, 2])] := by
+    deref (mergeDeep h0.1 h0.2 [(7, [2])]).1 h0.2 = [(7, [1])] := by
   decide
 
 /-! ## non-vacuity: evictions really happen in the histories the theorems range over -/
